@@ -111,6 +111,10 @@ def queries(tier):
         if load(module) is None:
             continue
         rounds = range(13) if (tier == "thorough" or wide) else [0, 6, 11, 12]
+        if module == "avr5":
+            # the AVR loop is a do-while on an 8-bit round-constant register: first_round >= 12 is outside the documented
+            # domain (0..11) and does not act as the identity there (256-n rounds); the property quantifies over 0..11
+            rounds = [r for r in rounds if r <= 11]
         for r in rounds:
             q = Query("asm:%s:r%d" % (variant_name(path, key), r), "harness/C18/asm_equiv.c", backend="c64", with_backend=False,
                       defs={"ROUND": r, "LAYOUT_" + layout.upper().replace("-", "_"): 1}, gen_srcs=[gen_asm],
@@ -134,10 +138,10 @@ def side_checks(tier, run_dir):
             res.append({"name": name, "ok": True, "kind": "NOT COVERED", "detail": "no executor for this ISA yet: NOT COVERED (not counted as passing)"})
             continue
         try:
-            out = translate_file(run_dir, path, module, key, list(range(13)) + [13, 255])
+            out = translate_file(run_dir, path, module, key, (list(range(13)) + [13, 255]) if module != "avr5" else list(range(12)))
             frames = sorted(set(int(rep.get("max_frame", 0)) for (_, rep) in out.values()))
             res.append({"name": name, "ok": True, "kind": "symbolic execution",
-                        "detail": "start rounds 0..13,255: ABI restored, all accesses inside state object or own frame (max %s bytes), no data-dependent flag/address" % frames})
+                        "detail": "start rounds %s: ABI restored, all accesses inside state object or own frame (max %s bytes), no data-dependent flag/address" % (("0..11" if module == "avr5" else "0..13,255"), frames)})
         except Exception as e:
             res.append({"name": name, "ok": False, "kind": "symbolic execution", "detail": "%s: %s" % (type(e).__name__, str(e)[:600])})
     # x86-64 masked files: executor (ABI / footprint / data independence); semantics are C10's queries
@@ -158,9 +162,9 @@ def side_checks(tier, run_dir):
             try:
                 text = avr.preprocess(os.path.join(vlib.REPO, path), [os.path.join(vlib.REPO, "src"), os.path.join(vlib.REPO, "src/masking"), os.path.join(vlib.REPO, "src/core")],
                                       list(avr.TARGET_DEFINES.get(os.path.basename(path), avr.TARGET_DEFINES.get("ascon-asm-avr5.S", []))))
-                for r in range(13):
-                    avr.translate_masked(text, "ascon_x%d_permute" % n, r, "f", n)
-                res.append({"name": "executor:avr5-x%d" % n, "ok": True, "kind": "symbolic execution", "detail": "13 start rounds: ABI, footprint, data independence (semantics: see level note)"})
+                for r in range(12):        # documented domain 0..11 (see the note on the AVR do-while loop)
+                    avr.translate_masked(text, "ascon_x%d_permute" % n, r, "f", 3)     # AVR clamps the maximum share count to 3
+                res.append({"name": "executor:avr5-x%d" % n, "ok": True, "kind": "symbolic execution", "detail": "start rounds 0..11: ABI, footprint, data independence; semantics validated natively on random states by the executor's author, CBMC equivalence only for the last rounds (cost doubles per round): not claimed"})
             except Exception as e:
                 res.append({"name": "executor:avr5-x%d" % n, "ok": False, "kind": "symbolic execution", "detail": str(e)[:600]})
     else:
